@@ -182,7 +182,12 @@ type wdb struct {
 	interval      timeutil.Interval // smallest interval (the one the families are cut by)
 	shards        int32
 	winClass      string
+	// channels created in parts (see TestChannelWrite): the shards that have a channel so far,
+	// nil = the shard-state callback created all of them at once
+	has map[int32]bool
 }
+
+func (d *wdb) hasChannel(shard int32) bool { return d.has == nil || d.has[shard] }
 
 func genWindowDB(t *rapid.T, name string) *wdb {
 	d := &wdb{name: name}
@@ -384,15 +389,42 @@ func TestChannelWrite(t *testing.T) {
 		live := map[models.NodeID]models.StatefulNode{1: node}
 		dbCfgs := make([]models.Database, len(dbs))
 		canonCase := blockClass
+		// The shard-state callback (channelManager.handleShardStateChangeEvent) walks the shards of the
+		// event and, per shard, calls CreateChannel and SyncShardState; write requests are served
+		// concurrently, so a request can meet a database whose channels exist only in part. For 1
+		// database in 5 (>= 2 shards) the harness makes exactly these per-shard calls itself, for a drawn
+		// part of the shards in a drawn order, lets requests in, and hands the whole event to the
+		// callback before a drawn request (or only after the last one).
+		events := make([]func(), len(dbs))
+		completeBefore := make([]int, len(dbs))
 		for i, d := range dbs {
+			i, d := i, d
 			dbCfgs[i] = d.config(t)
 			shards := map[models.ShardID]models.ShardState{}
 			for s := int32(0); s < d.shards; s++ {
 				shards[models.ShardID(s)] = models.ShardState{ID: models.ShardID(s), State: models.OnlineShard, Leader: 1,
 					Replica: models.Replica{Replicas: []models.NodeID{1}}}
 			}
-			sm.fn(dbCfgs[i], shards, live) // production path that creates the database / shard channels
+			events[i] = func() { sm.fn(dbCfgs[i], shards, live); d.has = nil }
 			canonCase += fmt.Sprintf("|db{b=%s a=%s iv=%v sh=%d}", d.behindS, d.aheadS, d.intervals, d.shards)
+			completeBefore[i] = -1
+			if d.shards >= 2 && rapid.IntRange(0, 4).Draw(t, "channelsInParts") == 0 {
+				order := rapid.Permutation(shardIDs(d.shards)).Draw(t, "shardOrder")
+				first := rapid.IntRange(1, int(d.shards)-1).Draw(t, "shardsWithChannel")
+				d.has = map[int32]bool{}
+				for _, id := range order[:first] {
+					ch, err := creator.CreateChannel(dbCfgs[i], d.shards, models.ShardID(id))
+					if err != nil {
+						t.Fatalf("CreateChannel(%s, %d shards, shard %d): %v", d.name, d.shards, id, err)
+					}
+					ch.SyncShardState(shards[models.ShardID(id)], live)
+					d.has[id] = true
+				}
+				completeBefore[i] = rapid.IntRange(0, 4).Draw(t, "completeBeforeRequest")
+				canonCase += fmt.Sprintf("parts%v@%d", order[:first], completeBefore[i])
+				continue
+			}
+			events[i]() // production path that creates the database / shard channels
 		}
 
 		e := &env{now: now}
@@ -414,6 +446,15 @@ func TestChannelWrite(t *testing.T) {
 
 		steps := rapid.IntRange(1, 4).Draw(t, "steps")
 		for s := 0; s < steps; s++ {
+			for i, d := range dbs {
+				if d.has != nil {
+					classes["channels-created-in-parts"] = true
+					if completeBefore[i] == s {
+						events[i]()
+						classes["channels-completed-between-requests"] = true
+					}
+				}
+			}
 			di := rapid.IntRange(0, len(dbs)-1).Draw(t, "db")
 			d := dbs[di]
 			f := format(rapid.IntRange(0, 3).Draw(t, "format"))
@@ -459,6 +500,24 @@ func TestChannelWrite(t *testing.T) {
 			// the model's expectation for this request
 			nOut, nIn, nSensitive := 0, 0, 0
 			stepGroups := map[groupKey]bool{}
+			// shards of this request without a channel: their rows must arrive nowhere
+			lastShard, lastShardIn, missingShards, lostIn := int32(-1), 0, map[int32]bool{}, 0
+			for _, a := range acc {
+				sh := jumpHash(a.c.TagsHash, d.shards)
+				out := outsideWindow(a.c.TS-now, d.behind, d.ahead)
+				if sh > lastShard {
+					lastShard, lastShardIn = sh, 0
+				}
+				if sh == lastShard && !out {
+					lastShardIn++
+				}
+				if !d.hasChannel(sh) {
+					missingShards[sh] = true
+					if !out {
+						lostIn++
+					}
+				}
+			}
 			for _, a := range acc {
 				out, sens, cl := rowClass(a.c.TS-now, d.behind, d.ahead)
 				classes[cl] = true
@@ -470,6 +529,9 @@ func TestChannelWrite(t *testing.T) {
 					continue
 				}
 				nIn++
+				if !d.hasChannel(jumpHash(a.c.TagsHash, d.shards)) {
+					continue
+				}
 				famFirst, _ := familyOf(d.interval.Int64(), a.c.TS) // the calendar family (independent model), not the calculator
 				k := groupKey{d.name, jumpHash(a.c.TagsHash, d.shards), famFirst}
 				if want[k] == nil {
@@ -486,8 +548,32 @@ func TestChannelWrite(t *testing.T) {
 			// the production path; the manager releases the batch to the pool when it is done
 			counter := metrics.NewBrokerDatabaseWriteStatistics(d.name).OutOfTimeRange
 			before := counter.Get()
-			if err := cm.Write(context.Background(), d.name, batch); err != nil {
-				t.Fatalf("[%s] ChannelManager.Write(%s) of %d accepted rows failed although every shard has a channel: %v", f, d.name, len(acc), err)
+			err := cm.Write(context.Background(), d.name, batch)
+			switch {
+			case len(missingShards) == 0:
+				if err != nil {
+					t.Fatalf("[%s] ChannelManager.Write(%s) of %d accepted rows failed although every shard of the request has a channel: %v", f, d.name, len(acc), err)
+				}
+			default:
+				classes["request-with-rows-for-a-shard-without-channel"] = true
+				// Rows of a shard without channel are not written anywhere; the request must not be
+				// answered as a success then. Asserted where the unchanged tree is deterministic about it:
+				// the shard groups are served in ascending shard order and the error of a group without
+				// channel is what Write returns when no later group follows. (When a later group is written
+				// successfully its nil result replaces the error - counted as an observation, see
+				// TestRegression_ChannelNotFoundOverwrittenByLaterShard.)
+				if missingShards[lastShard] && lastShardIn > 0 && err == nil {
+					t.Fatalf("[%s] ChannelManager.Write(%s) returned nil although shard %d (the last shard group of the request, %d rows inside the write window) has no channel: the rows are written nowhere and the client is told the request succeeded (shards with a channel: %v of %d)",
+						f, d.name, lastShard, lastShardIn, d.has, d.shards)
+				}
+				switch {
+				case err != nil:
+					classes["write-reported-channel-not-found"] = true
+				case lostIn > 0:
+					classes["observation:in-window-rows-of-a-shard-without-channel-dropped,write-returned-nil(later-shard-group-succeeded)"] = true
+				default:
+					classes["observation:only-evicted-rows-on-shards-without-channel,write-returned-nil"] = true
+				}
 			}
 			if dropped := int(counter.Get() - before); dropped != nOut {
 				t.Fatalf("[%s] database %s (behind=%q ahead=%q): the write reported %d rows out of time range, %d of the %d accepted rows are outside the window (offsets from now in ms: %v)",
@@ -607,6 +693,14 @@ func TestChannelWrite(t *testing.T) {
 		ev.Case("TestChannelWrite", canonCase, nontrivial, cl, map[string]any{"databases": len(dbs), "routed_requests": routed,
 			"rows_delivered": gotRows, "groups_delivered": len(keys), "steps": sample})
 	})
+}
+
+func shardIDs(n int32) []int32 {
+	ids := make([]int32, n)
+	for i := range ids {
+		ids[i] = int32(i)
+	}
+	return ids
 }
 
 func offsetsOf(acc []accepted, now int64) []int64 {
